@@ -6,4 +6,6 @@
 #define HOST_DELIM_SPECIAL(c) (HOST_DELIM(c) || (c) == '\\')
 #define AUTH_DELIM(c)         ((c) == '@' || (c) == '/' || (c) == '?')
 #define AUTH_DELIM_SPECIAL(c) (AUTH_DELIM(c) || (c) == '\\')
+/* membership of byte c in a 256-bit set stored as uint8_t[32] (what character_sets::bit_at computes) */
+#define BIT_AT(set, c) ((((set)[(uint8_t)(c) >> 3]) >> ((uint8_t)(c) & 7)) & 1)
 #endif
